@@ -51,6 +51,7 @@ type Scenario struct {
 	ShortRead  int           `json:"short_read,omitempty"`
 	Sweep      bool          `json:"sweep,omitempty"` // instead of the listed faults: a read error at every octet of every file, one parse each
 	Planted    *Planted      `json:"planted,omitempty"`
+	Intruder   bool          `json:"intruder,omitempty"`   // when Next has returned false, and before Err is asked, another parser is created and run on this goroutine (an application that handles several zones)
 	TruncLast  bool          `json:"trunc_last,omitempty"` // the last line of the top-level file is a record that stops before its last field (a domain name): the text ends in mid-record
 }
 
@@ -166,7 +167,11 @@ func genLines(r interface{ IntN(int) int }, n int, includes []string, damage boo
 				out = append(out, records[r.IntN(len(records))])
 				continue
 			}
-			switch r.IntN(11) {
+			switch r.IntN(12) {
+			case 11:
+				// one modifier text used twice: over a range it fits, then over one where it would count below zero
+				off := []int{-7, -1, -100, -65536}[r.IntN(4)]
+				out = append(out, fmt.Sprintf("$GENERATE %d-%d p${%d,2} A 192.0.2.1", -off, -off+2, off), fmt.Sprintf("$GENERATE 0-2 q${%d,2} A 192.0.2.2", off))
 			case 10:
 				// a $GENERATE whose text runs over several lines: the lexer reads \\" as an escaped
 				// backslash and an opening quote, so the following lines belong to the directive
@@ -232,6 +237,7 @@ func Gen(seed uint64, tier string) any {
 	sc.Include = core.Chance(r, 70)
 	sc.ByteReader = core.Chance(r, 30)
 	sc.ShortRead = core.Pick(r, 0, 0, 30, 90)
+	sc.Intruder = core.Chance(r, 30)
 	switch sc.Kind {
 	case "chain":
 		sc.Include = true
@@ -318,6 +324,10 @@ func Gen(seed uint64, tier string) any {
 			}
 			ft.Wrap = core.Chance(r, 20)
 			ft.Temp = !ft.Wrap && core.Chance(r, 15)
+			if core.Chance(r, 12) {
+				// not an error at all: one Read that returns no octets and no error
+				ft.Kind, ft.Wrap, ft.Temp = "zeroread", false, false
+			}
 			if core.Chance(r, 25) {
 				// a transient error: the read fails once, a retry would have succeeded
 				ft.Once = true
@@ -566,6 +576,13 @@ func parse(sc *Scenario, faults []simfs.Fault, short int) (o *outcome) {
 	if o.firedAt < 0 && hardFaults(o.fs) > 0 {
 		o.firedAt = len(o.recs)
 	}
+	if sc.Intruder {
+		// another zone is parsed in between: whatever that parser takes over from this one must not take the verdict with it
+		other := dns.NewZoneParser(strings.NewReader("$ORIGIN intruder.example.\n$TTL 60\nnever 300 IN A 192.0.2.200\n$GENERATE 1-2 g$ A 192.0.2.$\nlast IN TXT \"x\"\n"), "", "other.zone")
+		for _, ok := other.Next(); ok; _, ok = other.Next() {
+		}
+		_ = other.Err()
+	}
 	if err := zp.Err(); err != nil {
 		o.err = err.Error()
 	}
@@ -590,7 +607,7 @@ func parse(sc *Scenario, faults []simfs.Fault, short int) (o *outcome) {
 func hardFaults(f *simfs.FS) int {
 	n := 0
 	for k, v := range f.Fired {
-		if k != "short_read" && k != "open_missing" && k != "read_error_wrapping_eof" && k != "read_error_temporary" {
+		if k != "short_read" && k != "zero_read" && k != "open_missing" && k != "read_error_wrapping_eof" && k != "read_error_temporary" {
 			n += v
 		}
 	}
@@ -735,6 +752,17 @@ func runZone(sc *Scenario, res *core.Result, logf func(string, ...any)) {
 	if len(ref.recs) > genMax+nLines {
 		res.Fail("P7", "generate-more-than-one-record-per-step", "%d records from a tree whose %d $GENERATE directive(s) have %d steps in all and which has %d lines", len(ref.recs), nGen, genMax, nLines)
 		return
+	}
+	// the offset guard: a modifier must not take the iterator below zero (a name with a minus sign in it)
+	for i, l := range sc.Files[0].Lines {
+		var lo, hi, off int
+		if n, _ := fmt.Sscanf(l, "$GENERATE %d-%d q${%d,", &lo, &hi, &off); n == 3 && lo+off < 0 && balanced(sc.Files[0].Lines[:i]) {
+			res.Bump("oracle.P7_offset_guard")
+			if ref.err == "" {
+				res.Fail("P7", "generate-offset-below-zero", "line %d (%q) applies offset %d to a range that starts at %d; the parser returned %d records and no error", i+1, l, off, lo, len(ref.recs))
+				return
+			}
+		}
 	}
 	if nested {
 		res.Bump("oracle.P7_nested_generate_rejected")
@@ -885,7 +913,7 @@ func faultyRun(sc *Scenario, res *core.Result, ref *outcome, logf func(string, .
 	fired := 0
 	for k, v := range run.fs.Fired {
 		res.Add("fault."+k, v)
-		if k != "short_read" && k != "open_missing" && k != "read_error_wrapping_eof" && k != "read_error_temporary" {
+		if k != "short_read" && k != "zero_read" && k != "open_missing" && k != "read_error_wrapping_eof" && k != "read_error_temporary" {
 			fired += v
 		}
 	}
